@@ -11,7 +11,9 @@ B  Gen_AtomicStore enumerates every behaviour with one environment fault (Fail(s
    and compared with the configurations TLC allows; per-operation results, in-memory and on-disk digests reported
    by the child are compared with TLC's observations.  Complemented by real environment faults (RLIMIT_FSIZE
    short write + EFBIG, unwritable directory as an unprivileged user, vanished directory, directory path under
-   a regular file) and random-instant SIGKILLs during a tight store loop.
+   a regular file; where the sandbox allows it also a full 1 MiB tmpfs -> real ENOSPC, a read-only remount ->
+   EROFS, an immutable target -> rename fails with EPERM) and random-instant SIGKILLs during a tight store loop.
+   If strace / ptrace is unavailable the check exits 2 (no verdict).
 C  The strace log of every uninjected and every injected run is an implementation trace validated by
    Trace_AtomicStore; a corrupted trace (create on the target) must be rejected.
 """
@@ -22,8 +24,9 @@ import vlib
 PKG = "pkg/client/assets"
 FILES = ["common/vcommon_test.go", "pkg_assets/store_verif_test.go"]
 TRACE_SET = "openat,write,close,rename,renameat,renameat2,unlink,unlinkat,fsync,mkdirat"
-STEP_SYSCALL = {"create": "openat", "write": "write", "close": "close"}   # rename: measured from the baseline
 TMPNAMES = ["tmp%d" % i for i in range(1, 13)]
+# errno names the trace spec's cfg lists (the specification does not distinguish errnos; anything else is "other")
+KNOWN_ERRNOS = {"EACCES", "ENOSPC", "EIO", "ENOENT", "ENOTDIR", "EFBIG", "EROFS", "EPERM", "EXDEV", "EDQUOT", "EISDIR"}
 SETTERS = ["gen", "pubkey", "decoys", "subnets"]
 NPAR = 6
 
@@ -115,6 +118,8 @@ def parse_strace(path):
             if ret == "-1":
                 me = re.match(r"\s*(E\w+)", tail)
                 err = me.group(1) if me else "other"
+            if err is not None and err not in KNOWN_ERRNOS:
+                err = "other"
             out.append({"pid": pid, "name": name, "args": args, "ret": ret, "err": err, "injected": "(INJECTED)" in tail, "raw": rest})
     return out
 
@@ -300,6 +305,7 @@ class Runner:
         self.lock = threading.Lock()
         self.base = ctx.sub("runs")
         os.chmod(self.base, 0o755)
+        self.mounts = set()
 
     def newdir(self):
         with self.lock:
@@ -309,11 +315,17 @@ class Runner:
         os.chmod(d, 0o755)
         return d
 
-    def run(self, plan, inject=(), unpriv=False, keep=False):
+    def run(self, plan, inject=(), unpriv=False, tmpfs=None):
         """one child run under strace; returns dict(entries, ex, report, dir, rc)"""
         rd = self.newdir()
         d = os.path.join(rd, "assets")
         os.makedirs(d)
+        if tmpfs:
+            p = subprocess.run(["mount", "-t", "tmpfs", "-o", "size=%s" % tmpfs, "tmpfs", d], stdout=subprocess.PIPE, stderr=subprocess.STDOUT, text=True)
+            if p.returncode != 0:
+                raise vlib.InfraError("mount tmpfs failed: %s" % p.stdout)
+            with self.lock:
+                self.mounts.add(d)
         plan = dict(plan, dir=d)
         r = self.ver.ask({"q": "init", "plan": plan})
         if r.get("err") != "<nil>":
@@ -323,7 +335,6 @@ class Runner:
         cmd = ["strace", "-f", "-s", "0", "-o", log, "-e", "trace=" + TRACE_SET]
         for i in inject:
             cmd += ["-e", "inject=" + i]
-        kw = {}
         if unpriv:
             for p in (rd, d):
                 os.chown(p, 65534, 65534)
@@ -332,7 +343,7 @@ class Runner:
         cmd += [self.bin, "-test.run", "^TestVerifStoreChild$"]
         env = self.ctx.go_env({"VERIF_ROLE": "child", "VERIF_PLAN": pf, "VERIF_OUT": outp, "HOME": rd, "GOCACHE": "off"})
         try:
-            p = subprocess.run(cmd, env=env, stdout=subprocess.PIPE, stderr=subprocess.STDOUT, text=True, timeout=120, cwd=rd, **kw)
+            p = subprocess.run(cmd, env=env, stdout=subprocess.PIPE, stderr=subprocess.STDOUT, text=True, timeout=120, cwd=rd)
         except subprocess.TimeoutExpired:
             raise vlib.InfraError("child under strace timed out: %s" % " ".join(cmd))
         entries = parse_strace(log) if os.path.exists(log) else []
@@ -342,12 +353,27 @@ class Runner:
                 if l.strip():
                     report.append(json.loads(l))
         res = {"entries": entries, "ex": Extract(entries, d), "report": report, "dir": d, "rd": rd, "rc": p.returncode,
+               "immutable": any(o.get("env") == "immutable" for o in plan["ops"]),
                "out": p.stdout[:1500] + " ... " + p.stdout[-300:], "plan": plan}
         return res
 
+    def unmount(self, d):
+        subprocess.run(["umount", "-l", d], stdout=subprocess.DEVNULL, stderr=subprocess.DEVNULL)
+        with self.lock:
+            self.mounts.discard(d)
+
     def done(self, res):
+        if res["dir"] in self.mounts:
+            self.unmount(res["dir"])
+        if res.get("immutable"):
+            subprocess.run(["chattr", "-R", "-i", res["rd"]], stdout=subprocess.DEVNULL, stderr=subprocess.DEVNULL)
         if not os.environ.get("VERIF_KEEP"):
             shutil.rmtree(res["rd"], ignore_errors=True)
+
+    def cleanup(self):
+        for d in list(self.mounts):
+            self.unmount(d)
+        subprocess.run(["chattr", "-R", "-i", self.base], stdout=subprocess.DEVNULL, stderr=subprocess.DEVNULL)
 
 
 def inject_for(base, op, step, k, what, rename_sys):
@@ -556,6 +582,7 @@ def run(ctx):
         ctx.stage("B_env", **envstats)
         ctx.stage("B_randomkill", **kstats)
     finally:
+        rn.cleanup()
         ver.close()
 
     # ---- C
@@ -715,6 +742,13 @@ def env_faults(ctx, rn, ver, cases, large_decoys, traces_inj, distinct):
             i, step, k, e = c["fails"][0]
             index.setdefault((tuple(c["kinds"]), i, step, k), c)
     envs = [("movedir", "create", 0, False), ("filedir", "create", 0, False), ("rodir", "create", 0, True), ("fsize", "write", 1, False)]
+    # privileged mechanisms, used when this sandbox allows them (probed; otherwise recorded as not exercised)
+    priv = probe_privileged(ctx)
+    st["privileged_mechanisms"] = priv
+    if priv["tmpfs"]:
+        envs += [("tmpfs_full", "write", None, False), ("rofs", "create", 0, False)]
+    if priv["chattr"]:
+        envs += [("immutable", "rename", 0, False)]
     kindsets = [k for k in sorted({tuple(c["kinds"]) for c in cases.values() if len(c["kinds"]) == 3})]
     ctx.rng.shuffle(kindsets)
     work = []
@@ -724,15 +758,18 @@ def env_faults(ctx, rn, ver, cases, large_decoys, traces_inj, distinct):
             for i in (1, 2, 3):
                 if kinds[i - 1] == "BadMarshal":
                     continue
-                if env == "fsize":
-                    # needs a multi-megabyte store at op i
+                if env in ("fsize", "tmpfs_full"):
+                    # needs a multi-megabyte store at op i (for the full file system: as the last operation, since the
+                    # left-over temp file keeps the file system full)
+                    if env == "tmpfs_full" and i != 3:
+                        continue
                     variant = i % 2
-                    pl = mk_plan(ctx, list(kinds), variant, large_decoys, envs={i: env})
-                    if pl["ops"][i - 1]["size"] != "large":
+                    pl = mk_plan(ctx, list(kinds), variant, large_decoys, envs={} if env == "tmpfs_full" else {i: env})
+                    if pl["ops"][i - 1]["size"] != "large" or any(o["size"] == "large" for o in pl["ops"][:i - 1]):
                         continue
                 else:
                     pl = mk_plan(ctx, list(kinds), (ctx.seed + n) % 2, large_decoys, envs={i: env})
-                c = index.get((kinds, i, step, k))
+                c = index.get((kinds, i, step, k if k is not None else 1))
                 if c is None:
                     continue
                 work.append((env, unpriv, pl, c, i))
@@ -744,7 +781,7 @@ def env_faults(ctx, rn, ver, cases, large_decoys, traces_inj, distinct):
 
     def one(w):
         env, unpriv, pl, c, i = w
-        res = rn.run(pl, unpriv=unpriv)
+        res = rn.run(pl, unpriv=unpriv, tmpfs={"tmpfs_full": "1m", "rofs": "16m"}.get(env))
         return w, res
 
     with ThreadPoolExecutor(NPAR) as ex:
@@ -760,6 +797,13 @@ def env_faults(ctx, rn, ver, cases, large_decoys, traces_inj, distinct):
                     rn.done(res)
                     continue
                 raise vlib.InfraError("environment fault %s did not fail the store: %s" % (env, rep))
+            if env == "tmpfs_full":
+                # how many pieces reached the file before the file system was full is the kernel's choice: take the
+                # specification's case for the number observed
+                nw = len([1 for (idx, o, s_, kk) in res["ex"].steps if o == i and s_ == "write" and not res["entries"][idx]["err"]])
+                c = index.get((tuple(x["kind"] for x in pl["ops"]), i, "write", nw))
+                if c is None:
+                    raise vlib.InfraError("no TLC case for a store failing after %d complete writes" % nw)
             cc = dict(c, fails=[(i, c["fails"][0][1], c["fails"][0][2], got[0]["errno"])])
             check_report(ctx, ver, res, cc, "fail")
             st["runs"] += 1
@@ -783,11 +827,33 @@ def env_faults(ctx, rn, ver, cases, large_decoys, traces_inj, distinct):
     st["runs"] += 1
     st["kinds"]["rmdir:" + rep[1]["errno"]] = 1
     rn.done(res)
-    need = {"movedir", "filedir", "rodir", "fsize"}
+    need = {"movedir", "filedir", "rodir", "fsize"} | ({"tmpfs_full", "rofs"} if priv["tmpfs"] else set()) | ({"immutable"} if priv["chattr"] else set())
     have = {k.split(":")[0] for k in st["kinds"]}
     if need - have and not ctx.violations:
         raise vlib.InfraError("environment faults not exercised: %s" % (need - have))
     return st
+
+
+def probe_privileged(ctx):
+    """can this sandbox mount a size-limited tmpfs / set the immutable attribute?  (both need privileges beyond uid 0)"""
+    res = {"tmpfs": False, "chattr": False}
+    d = ctx.sub("probe_mnt")
+    p = subprocess.run(["mount", "-t", "tmpfs", "-o", "size=1m", "tmpfs", d], stdout=subprocess.DEVNULL, stderr=subprocess.DEVNULL)
+    if p.returncode == 0:
+        res["tmpfs"] = subprocess.run(["umount", d], stdout=subprocess.DEVNULL, stderr=subprocess.DEVNULL).returncode == 0
+        if not res["tmpfs"]:
+            subprocess.run(["umount", "-l", d], stdout=subprocess.DEVNULL, stderr=subprocess.DEVNULL)
+    f = os.path.join(ctx.scratch, "probe_immutable")
+    open(f, "w").close()
+    if shutil.which("chattr") and subprocess.run(["chattr", "+i", f], stdout=subprocess.DEVNULL, stderr=subprocess.DEVNULL).returncode == 0:
+        try:
+            os.rename(f, f + ".x")
+            os.rename(f + ".x", f)
+        except OSError:
+            res["chattr"] = True
+        subprocess.run(["chattr", "-i", f], stdout=subprocess.DEVNULL, stderr=subprocess.DEVNULL)
+    os.unlink(f)
+    return res
 
 
 def random_kills(ctx, binp, ver, nkills, large_decoys):
